@@ -14,6 +14,11 @@ package corr
 // component's outputs must not change.  A change in shared code (attributes.go, chain.go, streaminfo.go, the
 // packet factory, a neighbour that edits shared state) then shows up under the property it breaks.
 //
+// `reusehdr=1`: the application keeps ONE rtp.Header value (one CSRC array, one Extensions array) and one
+// extension payload buffer and fills them in place for every packet it writes (`o.Header(h)`).  It may: an
+// interceptor that keeps a packet beyond Write keeps a copy.  A shallow copy anywhere in the chain then shows up as
+// a retransmission / repair packet that carries a later packet's CSRCs or extension elements.
+//
 // Neighbours must be silent for the component's observables; a component chooses them per class in its generator
 // (never on its malformed-input classes unless the neighbour passes malformed input through unchanged).
 
@@ -28,6 +33,7 @@ import (
 	"github.com/pion/interceptor/pkg/stats"
 	"github.com/pion/interceptor/pkg/twcc"
 	"github.com/pion/logging"
+	"github.com/pion/rtp"
 )
 
 // Amb is the parsed `amb` op.
@@ -37,7 +43,11 @@ type Amb struct {
 	Reuse         bool     // the caller passes one long-lived Attributes map to every Read/Write
 	NilAttr       bool     // the transport below returns nil attributes from Read
 	FreshInfo     bool     // Unbind* gets an equal but distinct *StreamInfo
+	ReuseHdr      bool     // the application fills ONE rtp.Header / one extension payload buffer in place for every write
 	attrs         interceptor.Attributes
+	hdr           *rtp.Header
+	csrc          []uint32
+	extBuf        []byte
 }
 
 func parseAmb(op string) Amb {
@@ -49,7 +59,7 @@ func parseAmb(op string) Amb {
 		return strings.Split(s, ",")
 	}
 	return Amb{Before: split(m["before"]), After: split(m["after"]), Chain: m["chain"] == "1", Reuse: m["reuse"] == "1",
-		NilAttr: m["nilattr"] == "1", FreshInfo: m["freshinfo"] == "1"}
+		NilAttr: m["nilattr"] == "1", FreshInfo: m["freshinfo"] == "1", ReuseHdr: m["reusehdr"] == "1"}
 }
 
 func ambNeighbour(kind string) interceptor.Interceptor {
@@ -86,7 +96,9 @@ func ambNeighbour(kind string) interceptor.Interceptor {
 }
 
 // Wrap builds the interceptor under test into its ambient chain (identity when the case has no ambient).
-// The first neighbour of `Before` is outermost for writers (closest to the application) and for readers.
+// interceptor.Chain binds in list order, every interceptor wrapping what the previous one returned: the FIRST
+// neighbour of `Before` is innermost (next to the transport: last to see a written packet, first to see a read one),
+// the LAST neighbour of `After` is outermost (next to the application).
 func (o *Out) Wrap(ic interceptor.Interceptor) interceptor.Interceptor {
 	if o == nil || o.Amb == nil || (!o.Amb.Chain && len(o.Amb.Before)+len(o.Amb.After) == 0) {
 		return ic
@@ -112,6 +124,67 @@ func (o *Out) Attrs(dflt interceptor.Attributes) interceptor.Attributes {
 		o.Amb.attrs = interceptor.Attributes{}
 	}
 	return o.Amb.attrs
+}
+
+// Has reports whether the ambient chain holds a neighbour of the given kind below (`Before`) resp. above (`After`)
+// the interceptor under test.
+func (o *Out) Has(kind string, below bool) bool {
+	if o == nil || o.Amb == nil {
+		return false
+	}
+	l := o.Amb.After
+	if below {
+		l = o.Amb.Before
+	}
+	for _, k := range l {
+		if k == kind {
+			return true
+		}
+	}
+	return false
+}
+
+// Header is the *rtp.Header the application passes to Write for a packet whose header is `h`: `h` itself, or - with
+// `reusehdr=1` - the application's one long-lived header, filled in place with the fields of `h` (CSRCs written into
+// the same array, extension elements into the same Extensions array, their payloads into one shared byte buffer).
+// Whatever an earlier Write left in that header (an element an interceptor appended) is overwritten.
+func (o *Out) Header(h *rtp.Header) *rtp.Header {
+	if o == nil || o.Amb == nil || !o.Amb.ReuseHdr || h == nil {
+		return h
+	}
+	a := o.Amb
+	if a.hdr == nil {
+		a.hdr = &rtp.Header{Extensions: make([]rtp.Extension, 0, 8)}
+		a.csrc = make([]uint32, 0, 16)
+		a.extBuf = make([]byte, 0, 8192)
+	}
+	r := a.hdr
+	exts := r.Extensions[:0] // the array of the previous packet (possibly grown by an interceptor)
+	*r = *h
+	r.CSRC = nil
+	if h.CSRC != nil {
+		r.CSRC = append(a.csrc[:0], h.CSRC...)
+		a.csrc = r.CSRC
+	}
+	r.Extensions = nil
+	if h.Extensions != nil {
+		r.Extensions = append(exts, h.Extensions...)
+		// move every element's payload into the one buffer (SetExtension replaces the payload of an existing id;
+		// an element the profile check refuses keeps the slice it came with)
+		x, buf := r.Extension, a.extBuf[:0]
+		r.Extension = true // GetExtensionIDs / SetExtension look at the elements only when the flag is set
+		for _, id := range r.GetExtensionIDs() {
+			p := r.GetExtension(id)
+			if p == nil || len(buf)+len(p) > cap(buf) {
+				continue
+			}
+			off := len(buf)
+			buf = append(buf, p...)
+			_ = r.SetExtension(id, buf[off:len(buf):len(buf)])
+		}
+		r.Extension = x
+	}
+	return r
 }
 
 // Bottom is what the transport below returns as attributes from a Read that was given `a`.
